@@ -198,6 +198,18 @@ def run_check(mod):
     if b['obligations'] and b['discharged'] < b['obligations'] and not b['proof_broken']:
         b['proof_broken'] = 'Props/%s.v: %d of %d theorems checked (%s)' % (
             prop, b['discharged'], b['obligations'], b.get('recheck_error', '')[-300:])
+    # thorough tier: the independent checker re-checks the compiled property module and everything it loads, and lists every axiom
+    b['coqchk'] = None
+    if tier == 'thorough' and not b['proof_broken'] and os.path.exists(os.path.join(COQ, 'Props', '%s.vo' % prop)):
+        rc, log = sh(['timeout', '2400', 'coqchk', '-o', '-silent'] + coqio.qflags() + ['Plumpy.%s' % prop], 2500)
+        m = re.search(r'\* Axioms:(.*?)\n\s*\n\* Constants', log, re.S)
+        axioms = [x.strip() for x in (m.group(1).splitlines() if m else []) if x.strip() and x.strip() != '<none>']
+        b['coqchk'] = {'exit': rc, 'axioms': axioms, 'summary': ' '.join(log[-700:].split())[-500:]}
+        bad = [x for x in axioms if x.split()[0].split('.')[-1] not in {a.split('.')[-1] for a in ALLOWED_AXIOMS}]
+        if rc != 0:
+            b['proof_broken'] = 'coqchk rejected Props/%s.vo (exit %s): %s' % (prop, rc, b['coqchk']['summary'][-200:])
+        elif bad:
+            b['proof_broken'] = 'coqchk -o lists non-allow-listed axioms: %r' % bad
 
     rng = random.Random(seed)
     opens, _fixed = load_known(prop)
@@ -323,7 +335,7 @@ def run_check(mod):
             'obligations': b['obligations'], 'discharged': b['discharged'],
             'checker_cmd': 'make -C coq (full .vo build incl. Props/%s.v with Print Assumptions) && coqc build/cases/%s/*.v (vm_compute correspondence)' % (prop, prop),
             'trusted_base': TRUSTED_BASE + getattr(mod, 'TRUSTED_EXTRA', []),
-            'theorems': b['theorems'], 'axioms': b['axioms'],
+            'theorems': b['theorems'], 'axioms': b['axioms'], 'coqchk': b.get('coqchk'),
             'evaluations': len(cases), 'distinct_nontrivial': len(nontrivial),
             'traces_validated_against_impl': len(cases) - len(mismatches) if not corr_errors else 0,
             'model_impl_mismatches': len(mismatches), 'oracle_failures': len(oracle_fail),
